@@ -81,19 +81,37 @@ def pPair : P MatchedPair := do
   pure { sOnset := s, hasDur := h, pOnset := p }
 
 /-- an entry of the ordering request: `s onsetBeats docOrder` or `p noteOn pitch` -/
-def pOrdEntry : P (Bool × Rat × Int) := do
+def pOrdEntry : P OrdEntry := do
   let k ← tok
   let a ← rat; let b ← int
   match k with
-  | "s" => pure (true, a, b)
-  | "p" => pure (false, a, b)
+  | "s" => pure (.score a b)
+  | "p" => pure (.perf a b)
   | _ => P.fail
 
-def ordKeys (ps : List MatchedPair) (es : List (Bool × Rat × Int)) : Option (List LineKey) := do
-  let knots := timeMapKnots ps
-  es.mapM fun (isScore, a, b) =>
-    if isScore then some { k1 := a, k2 := b }
-    else (interpLin knots a).map fun y => { k1 := y, k2 := b }
+def fmtRecon (r : Recon) : String :=
+  fmtTuple [fmtNat r.divs,
+    fmtList (fun (b, p) => fmtTuple [fmtInt b, fmtInt p]) r.barlines,
+    fmtInt r.lastBarEnd,
+    fmtList (fun (p, n, d) => fmtTuple [fmtInt p, fmtNat n, fmtNat d])
+      (sortBy (fun a b => decide (a.1 < b.1) || (decide (a.1 = b.1) &&
+        (decide (a.2.1 < b.2.1) || (decide (a.2.1 = b.2.1) && decide (a.2.2 ≤ b.2.2))))) r.tsPos),
+    fmtList fmtInt r.ksPos,
+    fmtNat (r.fallback.filter id).length]
+
+/-- notes in the order of the request: onset, total duration -/
+def fmtReconNotes (n : Nat) (r : Recon) : String :=
+  let byIdx := (List.range n).map fun i =>
+    match r.notes.find? (fun x => x.1 = i) with
+    | some (_, on, durs) => fmtTuple [fmtRat on, fmtInt (durs.foldl (· + ·) 0)]
+    | none => "-"
+  "[" ++ ",".intercalate byIdx ++ "]"
+
+def pRtInput : P (Score × List (Int × Int) × List (Int × Nat)) := do
+  let sc ← pScore
+  let st ← list (do let o ← int; let d ← int; pure (o, d))
+  let ks ← list (do let t ← int; let v ← nat; pure (t, v))
+  pure (sc, st, ks)
 
 def handle (ts : List String) : String :=
   match ts with
@@ -108,12 +126,14 @@ def handle (ts : List String) : String :=
       fun (sc, tl) => fmtList (fun (k, l) =>
         fmtTuple [fmtNat k, fmtInt l.measure, fmtInt l.beat, fmtRat l.offset, fmtDec4 l.timeB]) (sc.sigLines tl)
   | "ordk" :: rest =>
-    orErr <| (run (do let ps ← list pPair; let es ← list pOrdEntry; pure (ps, es)) rest).bind
-      fun (ps, es) => (ordKeys ps es).map fun ks =>
-        fmtList fmtRat ((lexsortIdx ks).filterMap fun i => ks[i]?.map (·.k1))
+    orErr <| (run (do let ps ← list pPair; let es ← list pOrdEntry; pure (ps, es)) rest).map
+      fun (ps, es) =>
+        let ks := es.map (lineKey (timeMapKnots ps))
+        fmtList (fun k => match k with | some r => fmtRat r | none => "nan")
+          ((lexsortIdx ks).filterMap fun i => ks[i]?.map (·.k1))
   | "ordi" :: rest =>
-    orErr <| (run (do let ps ← list pPair; let es ← list pOrdEntry; pure (ps, es)) rest).bind
-      fun (ps, es) => (ordKeys ps es).map fun ks => fmtList fmtNat (lexsortIdx ks)
+    orErr <| (run (do let ps ← list pPair; let es ← list pOrdEntry; pure (ps, es)) rest).map
+      fun (ps, es) => fmtList fmtNat (writtenOrder ps es)
   | "ped" :: rest =>
     orErr <| (run (do let mpq ← nat; let ppq ← nat
                       let cs ← list (do let n ← nat; let t ← rat; let v ← int; pure (n, t, v))
@@ -130,25 +150,14 @@ def handle (ts : List String) : String :=
   | "align" :: rest =>
     orErr <| (run (list pRawLine) rest).map fun raw => fmtList fmtEntry (alignmentOf (loadLines raw))
   | "dec" :: rest =>
-    orErr <| (run pDecInput rest).bind fun (ns, tsl, ks) =>
-      (reconstruct ns tsl ks).map fun r =>
-        fmtTuple [fmtNat r.divs,
-          fmtList (fun (b, p) => fmtTuple [fmtInt b, fmtInt p]) r.barlines,
-          fmtInt r.lastBarEnd,
-          fmtList (fun (p, n, d) => fmtTuple [fmtInt p, fmtNat n, fmtNat d])
-            (sortBy (fun a b => decide (a.1 < b.1) || (decide (a.1 = b.1) &&
-              (decide (a.2.1 < b.2.1) || (decide (a.2.1 = b.2.1) && decide (a.2.2 ≤ b.2.2))))) r.tsPos),
-          fmtList fmtInt r.ksPos,
-          fmtNat (r.fallback.filter id).length]
+    orErr <| (run pDecInput rest).bind fun (ns, tsl, ks) => (reconstruct ns tsl ks).map fmtRecon
   | "decn" :: rest =>
-    orErr <| (run pDecInput rest).bind fun (ns, tsl, ks) =>
-      (reconstruct ns tsl ks).map fun r =>
-        -- notes in the order of the request: onset, total duration
-        let byIdx := (List.range ns.length).map fun i =>
-          match r.notes.find? (fun n => n.1 = i) with
-          | some (_, on, durs) => fmtTuple [fmtRat on, fmtInt (durs.foldl (· + ·) 0)]
-          | none => "-"
-        "[" ++ ",".intercalate byIdx ++ "]"
+    orErr <| (run pDecInput rest).bind fun (ns, tsl, ks) => (reconstruct ns tsl ks).map (fmtReconNotes ns.length)
+  | "rtq" :: rest =>
+    -- end to end in the model: score, stored notes (onset, tied duration) in file order, key signatures
+    orErr <| (run pRtInput rest).bind fun (sc, st, ks) => (sc.roundTrip st ks).map fmtRecon
+  | "rtn" :: rest =>
+    orErr <| (run pRtInput rest).bind fun (sc, st, ks) => (sc.roundTrip st ks).map (fmtReconNotes st.length)
   | "decr" :: rest =>
     orErr <| (run pDecInput rest).bind fun (ns, tsl, ks) =>
       (reconstruct ns tsl ks).map fun r => fmtOpt fmtRat r.restEnd
